@@ -202,15 +202,30 @@ def check(case):
         if cfg.get('overwrite') and cfg['how'] == 'path':
             dd = os.path.join(d, 'first')
             other = 'ascii' if case['table'] != 'ascii' else 'multibyte'
-            st2 = dumps.build_state(copy.deepcopy(TABLES[other]))
+            if cfg.get('samesize'):
+                other = case['table']
+            tbl2 = copy.deepcopy(TABLES[other])
+            if cfg.get('samesize'):
+                # the same shape and byte lengths, different content
+                for _, _, rows in tbl2:
+                    for r in rows:
+                        for k, v in r.items():
+                            if isinstance(v, str) and v:
+                                r[k] = ('Z' if v[0] != 'Z' else 'Y') + v[1:]
+                            elif isinstance(v, int) and not isinstance(v, bool) and 0 <= v < 9:
+                                r[k] = v + 1
+            st2 = dumps.build_state(tbl2)
             try:
                 core.Flow(core.from_state(st2), core.dataflows.dump_to_path(os.path.join(dd, 'out'), **copy.deepcopy(opts))).process()
                 wd = json.load(open(os.path.join(dd, 'out', 'datapackage.json'), encoding='utf-8'))
-                want = [len(t[2]) for t in TABLES[other]]
+                want = [len([r for r in t[2] if not (other == 'bad-rows' and isinstance(r.get('i'), str))]) for t in TABLES[other]]
                 got = []
                 for r in wd['resources']:
                     facts = dumps.file_facts(os.path.join(dd, 'out'), r)
                     got.append(len(dumps.decode_resource(os.path.join(dd, 'out'), r)) if facts else None)
+                    if facts and 'hash' in r and r['hash'] != facts['md5']:
+                        V('overwrite-hash', 'after dumping different data of the same size over an earlier dump, %s on disk does not '
+                          'match the hash its new descriptor records' % r['path'])
                 if got != want:
                     V('overwrite-stale', 'after dumping table set %r over an earlier dump of %r in the same directory, datapackage.json '
                       'describes resources with %r rows; the second dump wrote %r' % (other, case['table'], got, want))
@@ -244,6 +259,7 @@ def cases(tier):
             out.append({'table': table, 'cfg': {'format': fmt, 'how': 'path', 'counters': 'default', 'rerun': True}})
             out.append({'table': table, 'cfg': {'format': fmt, 'how': 'path', 'counters': 'dotted', 'rerun': True}})
             out.append({'table': table, 'cfg': {'format': fmt, 'how': 'path', 'counters': 'default', 'overwrite': True}})
+            out.append({'table': table, 'cfg': {'format': fmt, 'how': 'path', 'counters': 'default', 'overwrite': True, 'samesize': True}})
             out.append({'table': table, 'cfg': {'format': fmt, 'how': 'path', 'counters': 'default', 'overwrite': True, 'filehash': True}})
             out.append({'table': table, 'cfg': {'format': fmt, 'how': 'path', 'counters': 'dotted', 'redump': True}})
     return out
